@@ -38,6 +38,9 @@ func runC02(c *Ctx) {
 			TTLsMs: []int{1, 3, 20, 1100}, CostMode: "one", DelayLevel: lab.Pick(rng, []float64{0.5, 1, 2}),
 			EndWith: "close", Stream: uint64(i),
 		}
+		if i%2 == 0 {
+			o.CostMode = "random" // costs 0..19, also above MaxCost: overwrites that the policy would turn away as new items
+		}
 		if i%3 == 1 && nk >= 2 {
 			// keys colliding on the primary hash (different non-zero conflict hashes): a Del / overwrite / eviction aimed at
 			// one key must never release - or keep serving - the value of the other
